@@ -1,11 +1,21 @@
 package prop
 
 import (
-	"sort"
+	"bytes"
+	"math/rand"
+	"os"
+	"os/exec"
+
+	storetypes "cosmossdk.io/store/types"
 	"crypto/sha256"
 	"encoding/hex"
 	"encoding/json"
 	"fmt"
+	codectypes "github.com/cosmos/cosmos-sdk/codec/types"
+	sdktestutil "github.com/cosmos/cosmos-sdk/testutil"
+	recordmod "mods.irisnet.org/modules/record"
+	recordkeeper "mods.irisnet.org/modules/record/keeper"
+	"sort"
 	"strings"
 	"time"
 
@@ -24,7 +34,7 @@ import (
 func init() {
 	Register(&Spec{
 		ID: "C19", Level: "exploration",
-		Rule: "cases = chains of record creations (odd cases are born with records in genesis, the last of them byte-identical to the first record created afterwards, by governance; 1..N records per tx, 1..M txs per block, byte-identical contents by the same creator in one tx / one block / different blocks, several creators); monitors: every id returned by a message response must be new; every id is re-read through the query after its block, and all ids periodically and at the end, against the submitted contents, creator and sha256(tx bytes); the raw record store is diffed block to block (only additions, no value ever changes or disappears); non-trivial = a created record whose id/readback relation was evaluated; distinct = distinct (records per tx, duplicate kind, creator, read-back age class)",
+		Rule:   "cases = chains of record creations (odd cases are born with records in genesis, the last of them byte-identical to the first record created afterwards, by governance; 1..N records per tx, 1..M txs per block, byte-identical contents by the same creator in one tx / one block / different blocks, several creators); monitors: every id returned by a message response must be new; every id is re-read through the query after its block, and all ids periodically and at the end, against the submitted contents, creator and sha256(tx bytes); the raw record store is diffed block to block (only additions, no value ever changes or disappears); non-trivial = a created record whose id/readback relation was evaluated; distinct = distinct (records per tx, duplicate kind, creator, read-back age class)",
 		Assume: []string{"record ids are the hex strings returned in MsgCreateRecordResponse", "tx hash is the upper-case hex sha256 of the tx bytes as the module reports it"},
 		Cases:  func(t string) int { return tierN(t, 8, 32) },
 		Run:    runRecord,
@@ -38,13 +48,13 @@ type recExpect struct {
 }
 
 type recordWorkload struct {
-	run     *ev.Run
-	r       *rig.Rig
-	ids     map[string]*recExpect
-	order   []string
-	quiet   bool
-	prevRaw map[string]string
-	canon   []recordtypes.Content
+	run        *ev.Run
+	r          *rig.Rig
+	ids        map[string]*recExpect
+	order      []string
+	quiet      bool
+	prevRaw    map[string]string
+	canon      []recordtypes.Content
 	govCreated int // records created by governance since the last store diff
 }
 
@@ -52,7 +62,7 @@ func newRecordWorkload() *recordWorkload {
 	return &recordWorkload{ids: map[string]*recExpect{}}
 }
 
-func (w *recordWorkload) Name() string                                        { return "record" }
+func (w *recordWorkload) Name() string                                    { return "record" }
 func (w *recordWorkload) Genesis(codec.Codec, map[string]json.RawMessage) {}
 func (w *recordWorkload) Attach(run *ev.Run, r *rig.Rig) {
 	w.run, w.r = run, r
@@ -256,7 +266,131 @@ func (w *recordWorkload) rereadAll(age string) {
 	}
 }
 
+// RecordPrefixMain is the body of the child process "__c19prefix <seed> <n>": the record keeper, message server and query
+// server on a bare store, in a process whose account address prefix is "iaa" (the SDK keeps the prefix in a process-wide
+// configuration, so the chain of the other cases cannot change it). It creates n records by creators of 20 and 32 bytes
+// and prints, as JSON, every read-back (keeper, query, export) that differs from what was submitted.
+func RecordPrefixMain(args []string) {
+	seed, n := int64(1), 50
+	if len(args) > 0 {
+		fmt.Sscan(args[0], &seed)
+	}
+	if len(args) > 1 {
+		fmt.Sscan(args[1], &n)
+	}
+	sdk.GetConfig().SetBech32PrefixForAccount("iaa", "iap")
+	registry := codectypes.NewInterfaceRegistry()
+	recordtypes.RegisterInterfaces(registry)
+	cdc := codec.NewProtoCodec(registry)
+	key := storetypes.NewKVStoreKey(recordtypes.StoreKey)
+	ctx := sdktestutil.DefaultContext(key, storetypes.NewTransientStoreKey("transient_"+recordtypes.StoreKey))
+	k := recordkeeper.NewKeeper(cdc, key)
+	srv := recordkeeper.NewMsgServerImpl(k)
+	rng := rand.New(rand.NewSource(seed))
+	type out struct {
+		Records    int      `json:"records"`
+		Mismatches []string `json:"mismatches"`
+	}
+	var o out
+	bad := func(f string, a ...any) { o.Mismatches = append(o.Mismatches, fmt.Sprintf(f, a...)) }
+	var want []recordtypes.Record
+	for i := 0; i < n; i++ {
+		ab := make([]byte, pick(rng, 20, 20, 32))
+		rng.Read(ab)
+		creator := sdk.AccAddress(ab).String()
+		txb := make([]byte, 10+rng.Intn(200))
+		rng.Read(txb)
+		cs := []recordtypes.Content{{Digest: fmt.Sprintf("%x", rng.Int63()), DigestAlgo: "sha256", URI: pick(rng, "", "ipfs://x"), Meta: strings.Repeat("m", rng.Intn(20))}}
+		msg := recordtypes.NewMsgCreateRecord(cs, creator)
+		if err := msg.ValidateBasic(); err != nil {
+			bad("record %d: a creator of this chain (%s) fails ValidateBasic: %v", i, creator, err)
+			continue
+		}
+		res, err := srv.CreateRecord(ctx.WithTxBytes(txb), msg)
+		if err != nil {
+			bad("record %d: creation by %s rejected: %v", i, creator, err)
+			continue
+		}
+		o.Records++
+		h := sha256.Sum256(txb)
+		exp := recordtypes.Record{TxHash: strings.ToUpper(hex.EncodeToString(h[:])), Contents: cs, Creator: creator}
+		want = append(want, exp)
+		id, _ := hex.DecodeString(res.Id)
+		cmp := func(via string, got recordtypes.Record) {
+			if got.Creator != exp.Creator {
+				bad("record %s read through %s: creator %q, submitted by %q", res.Id, via, got.Creator, exp.Creator)
+			}
+			if got.TxHash != exp.TxHash || fmt.Sprint(got.Contents) != fmt.Sprint(exp.Contents) {
+				bad("record %s read through %s: tx hash / contents differ from what was submitted", res.Id, via)
+			}
+		}
+		if got, found := k.GetRecord(ctx, id); found {
+			cmp("the keeper", got)
+		} else {
+			bad("record %s cannot be read back through the keeper", res.Id)
+		}
+		if q, err := k.Record(ctx, &recordtypes.QueryRecordRequest{RecordId: res.Id}); err == nil && q.Record != nil {
+			cmp("the query", *q.Record)
+		} else {
+			bad("record %s cannot be read back through the query: %v", res.Id, err)
+		}
+	}
+	exported := recordmod.ExportGenesis(ctx, k)
+	if err := recordtypes.ValidateGenesis(*exported); err != nil {
+		bad("the module's own validation rejects the exported records: %v", err)
+	}
+	seen := map[string]int{}
+	for _, r := range exported.Records {
+		seen[r.Creator+"|"+r.TxHash]++
+		if _, err := sdk.AccAddressFromBech32(r.Creator); err != nil {
+			bad("exported record names creator %q, which is not an address of this chain: %v", r.Creator, err)
+		}
+	}
+	for _, r := range want {
+		if seen[r.Creator+"|"+r.TxHash] == 0 {
+			bad("the export holds no record by %s with tx hash %s", r.Creator, r.TxHash)
+		}
+	}
+	bz, _ := json.Marshal(o)
+	fmt.Println(string(bz))
+}
+
+// recordForeignPrefix runs RecordPrefixMain in a child process and judges its report.
+func recordForeignPrefix(run *ev.Run) {
+	self, err := os.Executable()
+	if err != nil {
+		run.Inconc("other-prefix probe: %v", err)
+		return
+	}
+	n := tierN(run.Tier, 60, 400)
+	bz, err := exec.Command(self, "__c19prefix", fmt.Sprint(run.Seed), fmt.Sprint(n)).Output()
+	if err != nil {
+		run.Inconc("other-prefix probe: child process failed: %v", err)
+		return
+	}
+	var o struct {
+		Records    int      `json:"records"`
+		Mismatches []string `json:"mismatches"`
+	}
+	if err := json.Unmarshal(bytes.TrimSpace(bz), &o); err != nil {
+		run.Inconc("other-prefix probe: unreadable report: %v", err)
+		return
+	}
+	run.Eval(3 * o.Records)
+	run.Count("records-created-under-another-account-prefix", int64(o.Records))
+	run.Class("readback", "other-account-prefix", "keeper+query+export")
+	for i, m := range o.Mismatches {
+		if i >= 5 {
+			break
+		}
+		run.Violation("C19:record:read-back-differs:other-account-prefix", map[string]any{"prefix": "iaa", "report": m}, "on a chain whose account prefix is iaa: %s", m)
+	}
+}
+
 func runRecord(run *ev.Run, c int) {
+	if c == 0 {
+		recordForeignPrefix(run)
+	}
 	w := newRecordWorkload()
 	// odd cases: the chain is born with records, the last of them byte-identical (contents, creator, hash of no
 	// transaction bytes) to the record governance creates later - which is then the first creation after genesis
